@@ -75,7 +75,7 @@ def _det_configs(tier, seed):
        ['many', 'cond']),
   ]
   if tier != 'quick':
-    for s in (11 + seed, 23 + seed, 31 + seed):
+    for s in (11 + seed, 23 + seed):
       cfgs.append(('random', f"pg.geno.Random(seed={s})", discrete + ['float']))
       cfgs.append(('dedup-random',
                    f"pg.geno.Deduping(pg.geno.Random(seed={s}), max_duplicates=2, max_proposal_attempts=8)",
@@ -541,19 +541,28 @@ _IN_ORDER = ['lockstep', 'lag1', 'lag2', 'burst2', 'tail3']
 _OUT_OF_ORDER = ['rev2', 'late0']
 
 
+def _rot(items, start, count):
+  return [items[(start + i) % len(items)] for i in range(min(count, len(items)))]
+
+
 def _det_combos(tier, seed, n):
   """Yields (kind, algo_expr, space_name, pattern_name, class, events)."""
   for ci, (kind, algo_expr, spaces) in enumerate(_det_configs(tier, seed)):
     if tier == 'quick' and len(spaces) > 2:
       # The first (smallest) space always; one of the others, rotated by seed.
       spaces = [spaces[0], spaces[1 + seed % (len(spaces) - 1)]]
+    elif len(spaces) > 3:
+      spaces = [spaces[0]] + _rot(spaces[1:], seed + ci, 2)
     for j, sp in enumerate(spaces):
       pats = _patterns(n, tier, seed, f'{algo_expr}-{sp}')
       if tier == 'quick':
         want = {_QUICK_DET[(ci + j + seed) % len(_QUICK_DET)]}
         if j == 0:
           want.add('lag1')
-        pats = [p for p in pats if p[0] in want]
+      else:
+        names = [p[0] for p in pats if not p[0].startswith('rand')]
+        want = set(_rot(names, 3 * (ci + j + seed), 3)) | {'rand0'}
+      pats = [p for p in pats if p[0] in want]
       for pname, pcls, events in pats:
         yield kind, algo_expr, sp, pname, pcls, events
 
@@ -567,7 +576,13 @@ def _evo_combos(configs, tier, seed, n):
       if tier == 'quick':
         want = {_IN_ORDER[(ci + j + seed) % len(_IN_ORDER)], 'holes3',
                 _OUT_OF_ORDER[(ci + j + seed) % len(_OUT_OF_ORDER)]}
-        pats = [p for p in pats if p[0] in want]
+      else:
+        ino = [p[0] for p in pats if p[1] == 'in-order' and not p[0].startswith('rand')]
+        ooo = [p[0] for p in pats if p[1] == 'out-of-order' and not p[0].startswith('rand')]
+        hol = [p[0] for p in pats if p[1] == 'holes' and not p[0].startswith('rand')]
+        want = (set(_rot(ino, 2 * (ci + j + seed), 2)) | set(_rot(hol, ci + j + seed, 1))
+                | set(_rot(ooo, ci + j + seed, 1)) | {'rand0', 'rand1'})
+      pats = [p for p in pats if p[0] in want]
       for pname, pcls, events in pats:
         yield kind, algo_expr, multi, single, sp, pname, events
 
@@ -578,8 +593,8 @@ def _evo_combos(configs, tier, seed, n):
 
 def drv_recover_deterministic(tier, seed):
   quick = tier == 'quick'
-  n = 6 if quick else 10
-  m = 3 if quick else 8
+  n = 6 if quick else 8
+  m = 3 if quick else 5
   rec = Recorder(
       'C15', 'recover(): Sweeping / Random(seed) / Deduping over them',
       scope=('Sweeping, Random(seed), Deduping(Sweeping|Random) with hash_fn / max_duplicates 1-3 / '
@@ -602,11 +617,11 @@ def drv_recover_deterministic(tier, seed):
     allp = run.all_proposals()
     for ci, snap in enumerate(run.snaps):
       variants = ['crash']
-      if not quick or ci % 3 == 1:
+      if ci % 3 == 1 or (not quick and ci % 3 == 2):
         variants.append('proposal')
       for variant in variants:
         chunks = [None]
-        if snap['k'] >= 2 and variant == 'crash' and (not quick or ci % 3 == 0):
+        if snap['k'] >= 2 and variant == 'crash' and (ci % 3 == 0 or (not quick and ci % 3 == 1)):
           chunks.append(snap['k'] // 2)
         single_call = {}
         for chunk in chunks:
@@ -779,7 +794,7 @@ def _drv_evo(rec, pre, configs, tier, seed, n, dedup):
 
 
 def drv_recover_evolution(tier, seed):
-  n = 8 if tier == 'quick' else 14
+  n = 8 if tier == 'quick' else 12
   rec = Recorder(
       'C15', 'recover(): regularized_evolution / hill_climb / nsga2 / neat / Evolution',
       scope=('regularized_evolution(pop 3-5), hill_climb(batch 1-3), nsga2(pop 2-3, 2 objectives), '
@@ -795,7 +810,7 @@ def drv_recover_evolution(tier, seed):
 
 
 def drv_recover_dedup_evolution(tier, seed):
-  n = 7 if tier == 'quick' else 12
+  n = 7 if tier == 'quick' else 10
   rec = Recorder(
       'C15', 'recover(): Deduping over evolution algorithms',
       scope=('Deduping(regularized_evolution|hill_climb; thorough: + neat) with hash_fn, '
